@@ -23,7 +23,7 @@ fn numbering(m: &Message) -> (Vec<u64>, bool) {
 }
 
 fn decode(bytes: &[u8]) -> (&'static str, Option<Message>, String) {
-    match guarded(|| decode_clutter_filter_map(&mut &bytes[..])) { Ok(Ok(m)) => ("ok", Some(m), String::new()), Ok(Err(e)) => ("err", None, format!("{e:?}")), Err(p) => ("panic", None, p) }
+    match guarded(|| if dribbled(bytes) { decode_clutter_filter_map(&mut Dribble::new(bytes)) } else { decode_clutter_filter_map(&mut &bytes[..]) }) { Ok(Ok(m)) => ("ok", Some(m), String::new()), Ok(Err(e)) => ("err", None, format!("{e:?}")), Err(p) => ("panic", None, p) }
 }
 
 fn random_map(rng: &mut Rng, nseg: usize, max_zones: u64, big_zone: bool) -> Map {
